@@ -657,6 +657,12 @@ operation is canceled outright and false is returned.
 */
 func (r *stack) transfer(dest *stack) (ok bool) {
 
+	// a stack cannot be transferred into itself: the
+	// source would grow while it is being read.
+	if r == dest {
+		return
+	}
+
 	// if a capacity was set, make sure
 	// the destination can handle it...
 	if dest.cap() > 0 {
